@@ -407,6 +407,8 @@ def run(ctx):
                            f'{miss[0]} is silently replaced by the default', ci.mod.rel, r.lineno)
     ctx.notes.append(f'C04.d delegation-completeness sites: {n_del}')
     _global_phase_controlled(ctx, repo)
+    control_values_representation_rule(ctx, 'C04.g')
+    ctx.decided.append('C04.g stored control values are read element-wise only when they are known to be a ProductOfSums')
 
 
 def _in_other_branch(parents, ret, store_line):
@@ -507,3 +509,62 @@ def _global_phase_controlled(ctx, repo):
         ctx.ob('C04.e', f'{ci.qual}.controlled:cv={cvs}:shape={shape}', ok, '' if ok else
                f'phase i controlled on values {cvs} (shapes {shape}) must become {want}; the method returns {out if not isinstance(out, Res) else "the ControlledGate unchanged"} - the phase '
                'is applied under the wrong control condition', ci.mod.rel, fn.lineno)
+
+
+# ---------------------------------------------------------------------------------------------------------------------
+# C04.g  AbstractControlValues has two representations.  Iterating / indexing / zipping an object of that type yields the
+# accepted values *per control qubit* for ProductOfSums, but one *joint assignment per term* for SumOfProducts.  Code that
+# reads per-qubit meaning out of `x.control_values` directly is right for one representation only; the representation
+# independent interface is expand(), validate(), is_trivial, ==, &, |, len via num_controls.
+def control_values_representation_rule(ctx, rid='C04.g'):
+    from ..flow import dominating_atoms
+    repo = ctx.repo
+    ctx.rule(rid, 'representation independence of control values: outside control_values.py, an expression `<x>.control_values` is iterated, zipped, enumerated, subscripted or '
+             'measured with len() only under a dominating `isinstance(<x>.control_values, ProductOfSums)` test; everything else goes through expand() / validate() / equality - '
+             'per-qubit reading of a SumOfProducts takes each joint assignment for the values of one qubit', floor=3, style='RG')
+    for m in sorted(repo.modules.values(), key=lambda x: x.rel):
+        if m.rel.endswith('_test.py') or '/testing/' in m.rel or m.rel.endswith('ops/control_values.py') or '/contrib/' in m.rel:
+            continue
+        if 'control_values' not in m.src:
+            continue
+        par = m.parents()
+        for n in ast.walk(m.tree):
+            if not (isinstance(n, ast.Attribute) and n.attr == 'control_values' and isinstance(n.ctx, ast.Load)):
+                continue
+            p = par.get(n)
+            use = None
+            if isinstance(p, (ast.For, ast.comprehension)) and p.iter is n:
+                use = 'iterated'
+            elif isinstance(p, ast.Subscript) and p.value is n:
+                use = 'subscripted'
+            elif isinstance(p, ast.Call) and n in p.args and call_name(p) in ('zip', 'enumerate', 'len', 'list', 'tuple', 'sorted', 'reversed', 'all', 'any', 'set'):
+                use = f'passed to {call_name(p)}()'
+            elif isinstance(p, ast.Compare) and any(isinstance(o, (ast.In, ast.NotIn)) for o in p.ops) and n in p.comparators:
+                use = 'searched with `in`'
+            elif isinstance(p, ast.Starred):
+                use = 'unpacked'
+            if use is None:
+                continue
+            fn = p
+            while fn in par and not isinstance(fn, (ast.FunctionDef, ast.AsyncFunctionDef)):
+                fn = par[fn]
+            txt = ast.unparse(n)
+            guarded = False
+            for a, pol in dominating_atoms(par, n, fn if isinstance(fn, (ast.FunctionDef, ast.AsyncFunctionDef)) else None):
+                if pol and isinstance(a, ast.Call) and call_name(a) == 'isinstance' and len(a.args) == 2 and ast.unparse(a.args[0]) == txt \
+                        and ast.unparse(a.args[1]).split('.')[-1] == 'ProductOfSums':
+                    guarded = True
+            # conjunction in the same boolean expression: isinstance(x.control_values, ProductOfSums) and x.control_values[-1] == ...
+            q = n
+            while q in par and not isinstance(par[q], ast.stmt):
+                pp = par[q]
+                if isinstance(pp, ast.BoolOp) and isinstance(pp.op, ast.And):
+                    for v in pp.values[:pp.values.index(q)] if q in pp.values else []:
+                        if isinstance(v, ast.Call) and call_name(v) == 'isinstance' and len(v.args) == 2 and ast.unparse(v.args[0]) == txt \
+                                and ast.unparse(v.args[1]).split('.')[-1] == 'ProductOfSums':
+                            guarded = True
+                q = pp
+            name = getattr(fn, 'name', '?')
+            ctx.ob(rid, f'{m.name}.{name}:{txt}:{use}', guarded, '' if guarded else
+                   f'`{txt}` is {use} without a dominating isinstance(..., ProductOfSums) test: for sum-of-products control values each element is a joint assignment of all '
+                   'controls, not the accepted values of one control qubit', m.rel, n.lineno)
